@@ -56,6 +56,10 @@ pub enum Q {
     Smooth(usize),
     /// wmc<Real> under the second weight table
     Wmc2,
+    /// the builder's own statistics queries (node counts, redundancy count); their answers
+    /// legitimately depend on what was allocated before, so only their effect on later
+    /// queries is compared
+    BuilderStats,
 }
 
 const FIXED: [&str; 13] = [
@@ -79,6 +83,7 @@ pub fn bdd_queries(n: usize) -> Vec<(String, Q)> {
         v.push((format!("smooth(width {})", k), Q::Smooth(k)));
     }
     v.push(("wmc<Real> (second weight table)".to_string(), Q::Wmc2));
+    v.push(("builder statistics".to_string(), Q::BuilderStats));
     v
 }
 
@@ -153,6 +158,10 @@ fn bdd_query<'a>(b: &'a AllBuilder<'a>, p: BddPtr<'a>, q: &Q, fx: &Fix) -> Resul
         }
         Q::Smooth(k) => digest_bdd(b.smooth(p, *k), n),
         Q::Wmc2 => format!("{:?}", p.unsmoothed_wmc(&fx.real2).0.to_bits()),
+        Q::BuilderStats => {
+            let _ = (b.stats(), b.num_recursive_calls());
+            String::new()
+        }
         Q::Cond(x, val) => digest_bdd(b.condition(p, VarLabel::new(*x as u64), *val), n),
         Q::Exists(x) => digest_bdd(b.exists(p, VarLabel::new(*x as u64)), n),
         Q::CondModel(m) => {
@@ -250,7 +259,7 @@ fn explore_bdd(f: TT, g: TT, n: usize, order: &[usize], depth: usize, kind: u8, 
 
 // ---- SDD and top-down pools (smaller alphabets) ------------------------------------------------
 
-pub const SDD_QUERIES: [&str; 9] = ["wmc<Real>", "wmc<FF64>", "evaluate", "count_nodes", "semantic_hash<FF32>", "cached_semantic_hash<FF64>", "condition", "exists", "wmc<Real> (second weight table)"];
+pub const SDD_QUERIES: [&str; 10] = ["wmc<Real>", "wmc<FF64>", "evaluate", "count_nodes", "semantic_hash<FF32>", "cached_semantic_hash<FF64>", "condition", "exists", "wmc<Real> (second weight table)", "builder statistics"];
 
 fn sdd_build<'a>(b: &'a CompressionSddBuilder<'a>, t: TT, v: usize, n: usize) -> SddPtr<'a> {
     if t == 0 {
@@ -295,7 +304,11 @@ fn sdd_query<'a>(b: &'a CompressionSddBuilder<'a>, p: SddPtr<'a>, q: usize, fx: 
         5 => format!("{}", p.cached_semantic_hash(b.vtree_manager(), &fx.hmap).value()),
         6 => sdd_canon(b.condition(p, VarLabel::new(1 % n as u64), false)),
         7 => sdd_canon(b.exists(p, VarLabel::new(0))),
-        _ => format!("{:?}", p.unsmoothed_wmc(&fx.real2).0.to_bits()),
+        8 => format!("{:?}", p.unsmoothed_wmc(&fx.real2).0.to_bits()),
+        _ => {
+            let _ = b.stats();
+            String::new()
+        }
     })
 }
 
@@ -358,6 +371,7 @@ pub fn td_queries(n: usize) -> Vec<(String, Q)> {
         v.push((format!("condition(x{}=false)", x), Q::Cond(x, false)));
     }
     v.push(("wmc<Real> (second weight table)".to_string(), Q::Wmc2));
+    v.push(("builder statistics (num_logically_redundant, stats)".to_string(), Q::BuilderStats));
     v
 }
 
@@ -381,6 +395,10 @@ fn td_query<'a>(b: &'a StandardDecisionNNFBuilder<'a>, p: BddPtr<'a>, q: &Q, fx:
         Q::Fixed(_) => format!("{}", p.cached_semantic_hash(b.order(), &fx.hmap).value()),
         Q::Cond(x, val) => digest_bdd(b.condition(p, VarLabel::new(*x as u64), *val), n),
         Q::Wmc2 => format!("{:?}", p.unsmoothed_wmc(&fx.real2).0.to_bits()),
+        Q::BuilderStats => {
+            let _ = (b.num_logically_redundant(), b.stats());
+            String::new()
+        }
         _ => String::new(),
     })
 }
